@@ -474,6 +474,14 @@ def rand_sym(rng, n, kind=None):
         g = np.diag(rng.choice([-1.0, -0.25, 0.0, 0.5, 1.0, 2.0], size=n) * rng.uniform(0.5, 1.0, size=n))
         if n >= 2:
             g[0, 0], g[1, 1] = -abs(g[0, 0]) - 0.3, abs(g[1, 1]) + 0.3
+    elif kind == "hollow":  # exact zeros on (part of) the diagonal with non-zero elements in those rows: transition densities, E_ij + E_ji
+        a = rng.normal(size=(n, n))
+        g = a + a.T
+        z = rng.random(n) < 0.6
+        z[0] = True
+        g[np.diag_indices(n)] = np.where(z, 0.0, np.diag(g))
+        if n == 1:
+            g[0, 0] = 0.0
     elif kind == "idempotent":  # projector onto a random subspace (closed-shell density in an orthonormal basis)
         q = np.linalg.qr(rng.normal(size=(n, n)))[0][:, : max(1, n // 2)]
         g = q @ q.T
